@@ -312,6 +312,14 @@ func fsFamily(w *mon.W) {
 	os.WriteFile(filepath.Join(root, "a", "b", "g.txt"), []byte("INSIDE-a-b-g"), 0o644)
 	os.WriteFile(filepath.Join(dir, "secret", "c.txt"), []byte(canary), 0o644)
 	os.WriteFile(filepath.Join(dir, "c.txt"), []byte(canary), 0o644)
+	// virtual hosting: <root>/<host>/… — the requests are sent for host "h"; the tree of
+	// another host ("secret") is outside what they may reach
+	vroot := filepath.Join(dir, "vroot")
+	os.MkdirAll(filepath.Join(vroot, "h", "a"), 0o755)
+	os.WriteFile(filepath.Join(vroot, "h", "a", "f.txt"), []byte("INSIDE-h-a-f"), 0o644)
+	os.MkdirAll(filepath.Join(vroot, "secret"), 0o755)
+	os.WriteFile(filepath.Join(vroot, "secret", "c.txt"), []byte(canary), 0o644)
+	os.WriteFile(filepath.Join(vroot, "c.txt"), []byte(canary), 0o644)
 	opt := rig.Options(func(o *config.Options) {})
 	mk := func(fs *app.FS) *route.Engine {
 		return rig.NewEngine(opt, func(e *route.Engine) { e.StaticFS("/", fs) })
@@ -320,6 +328,7 @@ func fsFamily(w *mon.W) {
 		mk(&app.FS{Root: root, AcceptByteRange: true}),
 		mk(&app.FS{Root: root, GenerateIndexPages: true, IndexNames: []string{"index.html"}}),
 		mk(&app.FS{Root: root, Compress: true, PathRewrite: app.NewPathSlashesStripper(0)}),
+		mk(&app.FS{Root: vroot, PathRewrite: app.NewVHostPathRewriter(0)}),
 	}
 	ft := []string{"/", "..", ".", "%2e%2e", "%2e", "%2f", "%2F", "secret", "c.txt", "a", "root", "%5c", "\\", "..%2f", "%2e%2e%2f", "....//", "%252e%252e", "a/f.txt", "%00", ";"}
 	w.Cases("fs", uint64(w.Pick(600, 6000)), func(c *mon.Case) {
